@@ -1,12 +1,30 @@
 (* Properties_C15.v — C15: decoding does not depend on how the reader
-   delivers the bytes.  Statements are added as the proofs land. *)
+   delivers the bytes.  Statement only; proof in ReaderProof.v.
+
+   The decoder models (CborDec.v, JsonDec.v) are functions of the abstract
+   byte stream alone, so their results cannot depend on a schedule; what has
+   to be shown is that the stream reader refines that abstract stream under
+   every legal schedule — this theorem.  (That the real decoders behave like
+   the models under schedules is what the sched-dec correspondence suite runs.) *)
 From Coq Require Import List ZArith.
-Require Import Tok Reader.
+Require Import Tok Reader ReaderProof.
 Import ListNotations.
 Open Scope Z_scope.
 
-(* sanity (kernel-evaluated): a (0,nil) read between bytes is retried, not taken as a NUL byte *)
+Theorem C15_reader_refines_abstract_stream : forall data sched ops,
+  no_faults sched = true -> zero_runs_below max_empty 0 sched = true ->
+  fst (run_ops (slick_init data sched) ops) = fst (run_ops_abs (astream_init data) ops) /\
+  snum (snd (run_ops (slick_init data sched) ops)) = anum (snd (run_ops_abs (astream_init data) ops)).
+Proof. exact reader_refines_stream. Qed.
+Print Assumptions C15_reader_refines_abstract_stream.
+
+(* sanity (kernel-evaluated): a (0,nil) read between bytes is retried, not taken as a NUL byte;
+   EOF delivered together with the last byte is postponed; unread restores the byte *)
 Example C15_zero_read_retried :
   fst (run_ops (slick_init [24; 42] [SChunk 1 false; SChunk 0 false; SChunk 1 true]) [OpRead1; OpRead1; OpRead1])
   = [OByte 24; OByte 42; OErr REof].
 Proof. vm_compute. reflexivity. Qed.
+Example C15_hypotheses_satisfiable :
+  no_faults [SChunk 1 false; SChunk 0 false; SChunk 0 true; SChunk 3 true] = true /\
+  zero_runs_below max_empty 0 [SChunk 1 false; SChunk 0 false; SChunk 0 true; SChunk 3 true] = true.
+Proof. vm_compute. split; reflexivity. Qed.
